@@ -318,13 +318,32 @@ pub fn run(run: &mut Run) {
         .into_par_iter()
         .fold(Tally::default, |mut t, i| {
             check_unary(fam[i], &run.sink, &mut t);
+            let (mut n_disj, mut n_sub, mut n_sup, mut n_eq, mut n_over) = (0u64, 0u64, 0u64, 0u64, 0u64);
             for j in 0..fam.len() {
                 t.states += 1;
-                if fam[i] & fam[j] != 0 {
+                let (a, b) = (fam[i], fam[j]);
+                if a & b != 0 {
                     t.nontrivial += 1;
                 }
-                check_pair(fam[i], fam[j], &sets[i], &sets[j], &run.sink, &mut t);
+                // outcome classes of the pair (by the reference relation)
+                if a == b {
+                    n_eq += 1;
+                } else if a & b == 0 {
+                    n_disj += 1;
+                } else if a & b == a {
+                    n_sub += 1;
+                } else if a & b == b {
+                    n_sup += 1;
+                } else {
+                    n_over += 1;
+                }
+                check_pair(a, b, &sets[i], &sets[j], &run.sink, &mut t);
             }
+            t.hit_n("pairs: equal", n_eq);
+            t.hit_n("pairs: disjoint", n_disj);
+            t.hit_n("pairs: proper subset", n_sub);
+            t.hit_n("pairs: proper superset", n_sup);
+            t.hit_n("pairs: overlapping", n_over);
             t
         })
         .reduce(Tally::default, Tally::merge);
